@@ -118,7 +118,16 @@ def analyse(plan: dict[str, Any], result: dict[str, Any]) -> Report:
         if st == 'deadlock':
             rep.bad('C03.deadlock', inc=k, info=inc['deadlock'])
         if st == 'rank_error':
+            low = {plan.get('factor_dtype'), plan.get('inv_dtype')} & {
+                'bfloat16', 'float16'}
             for r, e in inc['rank_errors'].items():
+                if low and 'LinAlgError' in e['error']:
+                    # a 16-bit factor cannot hold x + damping when x is 1e5:
+                    # numerical breakdown of the chosen precision, not a
+                    # property of the code (C01: "up to a tolerance that
+                    # scales with the conditioning")
+                    rep.stats['vacuous_low_precision_breakdown'] += 1
+                    continue
                 props = ['C03']
                 if e.get('phase') == 'restore' or k > 0:
                     # a valid state must load, and the resumed job must run
